@@ -865,27 +865,49 @@ func (ctx *Context) evaluate() {
 			diceStates[diceStateIndex].times = times
 		case typeDiceSetKeepLowNum:
 			v := stackPop()
+			num, ok := readIntOperand(v, "骰子取低个数")
+			if !ok {
+				return
+			}
 			diceStates[diceStateIndex].isKeepLH = 1
-			diceStates[diceStateIndex].lowNum, _ = v.ReadInt()
+			diceStates[diceStateIndex].lowNum = num
 		case typeDiceSetKeepHighNum:
 			v := stackPop()
+			num, ok := readIntOperand(v, "骰子取高个数")
+			if !ok {
+				return
+			}
 			diceStates[diceStateIndex].isKeepLH = 2
-			diceStates[diceStateIndex].highNum, _ = v.ReadInt()
+			diceStates[diceStateIndex].highNum = num
 		case typeDiceSetDropLowNum:
 			v := stackPop()
+			num, ok := readIntOperand(v, "骰子丢弃低个数")
+			if !ok {
+				return
+			}
 			diceStates[diceStateIndex].isKeepLH = 3
-			diceStates[diceStateIndex].lowNum, _ = v.ReadInt()
+			diceStates[diceStateIndex].lowNum = num
 		case typeDiceSetDropHighNum:
 			v := stackPop()
+			num, ok := readIntOperand(v, "骰子丢弃高个数")
+			if !ok {
+				return
+			}
 			diceStates[diceStateIndex].isKeepLH = 4
-			diceStates[diceStateIndex].highNum, _ = v.ReadInt()
+			diceStates[diceStateIndex].highNum = num
 		case typeDiceSetMin:
 			v := stackPop()
-			i, _ := v.ReadInt()
+			i, ok := readIntOperand(v, "骰子最小值")
+			if !ok {
+				return
+			}
 			diceStates[diceStateIndex].min = &i
 		case typeDiceSetMax:
 			v := stackPop()
-			i, _ := v.ReadInt()
+			i, ok := readIntOperand(v, "骰子最大值")
+			if !ok {
+				return
+			}
 			diceStates[diceStateIndex].max = &i
 		case typeDetailMark:
 			span := code.Value.(BufferSpan)
